@@ -786,7 +786,13 @@ fn format_datetime_with_pattern(datetime_str: &str, pattern: &str) -> String {
 
     pattern
         .replace("%Y", year)
-        .replace("%y", &year[year.len().saturating_sub(2)..])
+        .replace(
+            "%y",
+            &year
+                .chars()
+                .skip(year.chars().count().saturating_sub(2))
+                .collect::<String>(),
+        )
         .replace("%m", month)
         .replace("%c", &month_num.to_string())
         .replace("%d", day)
